@@ -1,6 +1,7 @@
 package main
 
 import (
+	"strconv"
 	"fmt"
 	"go/token"
 	"go/types"
@@ -66,6 +67,13 @@ func (x *Exec) doCall(fr *Frame, st *State, c *ssa.CallCommon, args []Value, pos
 		} else {
 			res = x.havocCall(fr, st, key, args, rt, pos)
 		}
+	case x.devirtualised(fr, c, args) != nil:
+		// inside an inlined helper: an interface method call whose receiver's dynamic type is
+		// known (it was boxed from a concrete module type on the way in) is the concrete method
+		fn := x.devirtualised(fr, c, args)
+		recv := args[0].(IfaceV)
+		cargs := append([]Value{x.unbox(recv.Data, recv.Dyn)}, args[1:]...)
+		res = x.inline(fr, st, fn, cargs, nil, pos)
 	default:
 		if r, ok := x.accessorConvention(fr, st, c, key, args, rt); ok {
 			res = r
@@ -336,6 +344,30 @@ func (x *Exec) canInline(fr *Frame, fn *ssa.Function) bool {
 
 // inModule: the callee belongs to the crossplane module itself (inlined before the accessor
 // convention is tried; dependency helpers are inlined only after it).
+// devirtualised resolves an interface method call in an inlined frame to the concrete module
+// method when the receiver's dynamic type is statically known; nil otherwise.
+func (x *Exec) devirtualised(fr *Frame, c *ssa.CallCommon, args []Value) *ssa.Function {
+	if fr.parent == nil || !c.IsInvoke() || len(args) == 0 {
+		return nil
+	}
+	recv, ok := args[0].(IfaceV)
+	if !ok || recv.Dyn == nil {
+		return nil
+	}
+	if _, isPtr := recv.Dyn.Underlying().(*types.Pointer); !isPtr {
+		return nil
+	}
+	sel := x.L.Prog.MethodSets.MethodSet(recv.Dyn).Lookup(c.Method.Pkg(), c.Method.Name())
+	if sel == nil {
+		return nil
+	}
+	fn := x.L.Prog.MethodValue(sel)
+	if fn == nil || !inModule(fn) || fn.Synthetic != "" || !x.canInline(fr, fn) {
+		return nil
+	}
+	return fn
+}
+
 func inModule(fn *ssa.Function) bool {
 	pkg := fn.Pkg
 	if pkg == nil && fn.Origin() != nil {
@@ -622,6 +654,15 @@ func (x *Exec) applySpec(fr *Frame, st *State, spec *FuncSpec, c *ssa.CallCommon
 				// an empty variadic tail is not an argument
 				if sv, ok := pargs[len(pargs)-1].(SliceV); ok && sv.Arr == NilRef {
 					pargs = pargs[:len(pargs)-1]
+				} else if ok {
+					// a variadic tail of statically known length is passed element by element (the
+					// slice that carries it is a fresh allocation at every call)
+					if n, err := strconv.Atoi(sv.Len); err == nil && n >= 0 && n <= 4 {
+						pargs = append([]Value(nil), pargs[:len(pargs)-1]...)
+						for k := 0; k < n; k++ {
+							pargs = append(pargs, x.elemLoad(st, sv, IntLit(int64(k))))
+						}
+					}
 				}
 			}
 			argTerms, argSorts := pureArgs(pargs)
